@@ -64,12 +64,12 @@ async def outcome(coro):
         return (type(e).__name__, asyncio.get_running_loop().time(), e)
 
 
-SCENARIOS = ("rstack-in-time", "error-in-time", "nothing", "rstack-late", "rstack-twice", "rstack-before", "loss", "other-frames", "data-then-rstack")
+SCENARIOS = ("rstack-in-time", "error-in-time", "nothing", "rstack-late", "rstack-twice", "rstack-before", "loss", "other-frames", "data-then-rstack", "send-in-flight", "rst-write-fails")
 
 
 class Reset(Harness):
     name = "c11_reset"
-    must_reach = ("completed", "timeout", "wrong-code", "error-frame", "late", "lost-clean", "lost-exc", "second-reset", "renumbered", "data-before-rstack")
+    must_reach = ("completed", "timeout", "wrong-code", "error-frame", "late", "lost-clean", "lost-exc", "second-reset", "renumbered", "data-before-rstack", "send-in-flight", "write-failed")
     functions = ("Gateway.reset", "Gateway.reset_received", "Gateway.connection_lost", "Gateway._reset_cleanup",
                  "AshProtocol.send_reset", "AshProtocol.rstack_frame_received", "AshProtocol.error_frame_received")
 
@@ -101,6 +101,26 @@ class Reset(Harness):
                 p.data_received(wire(R.rstack_frame(SW)))
                 await asyncio.sleep(0.01)
                 ctx.check(not [e for e in app.ev if e[0] == "failed"], "a software-reset RSTACK without a waiter was treated as a failure", "unsolicited-sw-rstack")
+            old_send = None
+            if sc == "send-in-flight":
+                # a DATA frame of the host is on the wire, unacknowledged (hung NCP), when the reset is requested
+                old_send = loop.create_task(outcome(p.send_data(b"\x0a\x0b")))
+                await asyncio.sleep(0.05)
+            if sc == "rst-write-fails":
+                # the port rejects one write (transient error): the request fails; the next request is a full request again
+                real_write = tr.write
+                state = {"n": 0}
+
+                def flaky(data):
+                    state["n"] += 1
+                    if state["n"] == 1:
+                        raise OSError("write failed")
+                    real_write(data)
+
+                tr.write = flaky
+                r0 = await outcome(gw.reset())
+                ctx.check(r0[0] not in ("ok", "TimeoutError", "CancelledError"), "reset() whose RST write failed ended with %s" % r0[0], "write-failure-outcome")
+                ctx.label("write-failed")
             t0 = loop.time()
             w0 = len(tr.writes)
             task = loop.create_task(outcome(gw.reset()))
@@ -122,6 +142,9 @@ class Reset(Harness):
                 expect_ok = True
             elif sc == "rstack-before":
                 pass  # the early RSTACK must not satisfy this request
+            elif sc in ("send-in-flight", "rst-write-fails"):
+                loop.call_later(0.2, p.data_received, wire(R.rstack_frame(SW)))
+                expect_ok = True
             elif sc == "data-then-rstack":
                 # a DATA frame the NCP had queued before it saw the RST arrives first (own callback), then the RSTACK
                 loop.call_later(0.1, p.data_received, wire(R.data_frame(dfrm, 0, 0, [4, 5, 6])))
@@ -177,7 +200,7 @@ class Reset(Harness):
                 ctx.check(len(fails) == 1, "%s with code 0x%02X reported as NCP failure %d times" % (sc, code, len(fails)), "failure-report-count")
                 if fails:
                     ctx.check(int(fails[0][2]) == code, "failure reported with code %r, frame carried 0x%02X" % (fails[0][2], code), "failure-code")
-            if sc in ("nothing", "rstack-late", "rstack-twice", "rstack-before", "other-frames", "data-then-rstack"):
+            if sc in ("nothing", "rstack-late", "rstack-twice", "rstack-before", "other-frames", "data-then-rstack", "send-in-flight", "rst-write-fails"):
                 ctx.check(not fails, "NCP failure reported in scenario %s" % sc, "spurious-failure")
             if sc == "rstack-late":
                 ctx.label("late")
@@ -200,6 +223,25 @@ class Reset(Harness):
                     ctx.fail("second reset() never finished", "second-reset-hangs")
                 ctx.check(k2 == "ok" and abs(t2 - (t1 + 0.2)) < EPS, "second reset() ended with %s at +%.3f" % (k2, t2 - t1), "second-reset-outcome")
                 expect_ok = True
+            if old_send is not None:
+                ctx.label("send-in-flight")
+                # the frame that was in flight is retransmitted when its timer expires; the NCP acknowledges it then
+                def ack_old(data, real=tr.on_write):
+                    bs = list(data)
+                    try:
+                        fr = R.decode(R.unstuff(bs[:-1]))
+                    except R.Bad:
+                        return
+                    if fr[0] == "DATA" and bytes(fr[4]) == b"\x0a\x0b":
+                        loop.call_soon(p.data_received, wire(R.ack_frame((fr[1] + 1) % 8)))
+
+                tr.on_write = ack_old
+                try:
+                    ro = await asyncio.wait_for(old_send, 30)
+                except Exception:
+                    ro = ("hung", 0, None)
+                tr.on_write = None
+                ctx.check(ro[0] in ("ok", "NcpFailure", "TimeoutError", "NotAcked", "RuntimeError"), "the send that was in flight ended with %s" % ro[0], "old-send-outcome")
             if expect_ok:
                 # both directions restart at zero
                 ctx.label("renumbered")
